@@ -1,31 +1,30 @@
-"""Per-property configuration of ./check (claimed properties only)."""
+"""Per-property configuration of ./check, assembled from the CONFIG dict of
+every harness/cNN.py module (claimed properties only)."""
+import glob
+import importlib
+import os
+import sys
+
+_HERE = os.path.dirname(os.path.abspath(__file__))
+if _HERE not in sys.path:
+    sys.path.insert(0, _HERE)
 
 COMMON_TB = [
     "Coq 8.16.1 kernel (coqc; coqchk in the thorough tier); vm_compute for finite side conditions; no native_compute",
-    "no axioms: Print Assumptions output is recorded in coverage.print_assumptions",
-    "extraction: ExtrOcamlBasic + ExtrOcamlString (bool/option/unit/prod/list/sumbool -> OCaml, ascii -> char, string -> char list); Z/N/nat kept as Coq inductives; OCaml 4.13.1; hand-written ocaml/sexp.ml wire.ml drv_*.ml driver.ml",
-    "correspondence harness (Python): generators, canonical forms, exception -> family mapping",
+    "axioms: none declared; what Print Assumptions prints under each theorem is recorded in coverage.print_assumptions",
+    "extraction: ExtrOcamlBasic + ExtrOcamlString (bool/option/unit/prod/list/sumbool -> OCaml, ascii -> char, "
+    "string -> char list); Z/N/nat/Q kept as Coq inductives; OCaml 4.13.1; hand-written ocaml/sexp.ml wire.ml "
+    "drv_*.ml driver.ml",
+    "correspondence harness (Python): generators, canonical forms, exception -> family mapping, object-identity "
+    "numbering via id()",
     "harness/tables.py (Python ast, fail-closed) regenerating coq/Gen/Generated.v from /repo",
 ]
 
-PROPS = {
-    "C14": {
-        "module": "c14",
-        "rule": ("every string of length <= 4 (thorough adds length 5 over rotating 12-symbol "
-                 "sub-alphabets) over the 27-symbol alphabet of all syntactically significant characters plus a b 1, "
-                 "then seeded random strings (character-level, token-level, printable ASCII and non-ASCII) up to "
-                 "length 40; each under auto/dot/slash separator x escaped parse, unescaped parse, str(); plus "
-                 "SearchKeywordTerms.parameters.  non-trivial = length >= 2; distinct = distinct text (measured with a hash set)."),
-        "trusted_base": COMMON_TB + [
-            "modelled, not verified: yamlpath/yamlpath.py _parse_path/_expand_splats/original setter/"
-            "_stringify_yamlpath_segments/ensure_escaped, path/*.py __str__ and parameters, enums' str()",
-            "Python str modelled as UTF-8 byte strings: int() on non-ASCII digits, non-ASCII whitespace in strip(), "
-            "and non-ASCII case mapping are outside the modelled domain (generators avoid them)",
-        ],
-        "assumptions": [
-            "the model is the code only as far as the correspondence run shows (zero disagreements on the inputs listed in coverage)",
-            "forced separator settings are installed by assigning YAMLPath._separator, the field the parser reads "
-            "(the constructor argument is overwritten by the `original` setter)",
-        ],
-    },
-}
+PROPS = {}
+for _f in sorted(glob.glob(os.path.join(_HERE, "c[0-9][0-9].py"))):
+    _name = os.path.basename(_f)[:-3]
+    _m = importlib.import_module(_name)
+    _c = dict(_m.CONFIG)
+    _c["module"] = _name
+    _c["trusted_base"] = COMMON_TB + list(_c.get("trusted_base", []))
+    PROPS[_c["id"]] = _c
